@@ -392,39 +392,36 @@ Fixpoint group_key (sl : list derivedcol) (gb : list colref) (rw : row) : outcom
       end
   end.
 
-(* state of the aggregation loop: the compacted prefix rows[0..rowIdx) with the key of each
-   representative (groupKeyToRow), and the counts map, keyed by representative index, select-list
-   position and column string (represented by group key and position) *)
-Record agg_state := mkAgg {
-  ag_groups : list (gkey * row);
-  ag_counts : list ((gkey * nat) * Z)
-}.
+(* state of the aggregation loop. Go keeps rows[0..rowIdx) (the representatives, compacted in
+   place), groupKeyToRow (group key -> index of the representative) and counts, a map keyed by
+   "representative index : select-list position : column text". Here: one entry per
+   representative, in order of first appearance, holding its group key, its current Vals and
+   the counts of that representative by select-list position (the column text is determined
+   by the position). *)
+Definition gstate := (row * list (nat * Z))%type.
 
-Fixpoint find_group (k : gkey) (gs : list (gkey * row)) : option row :=
+Fixpoint find_group (k : gkey) (gs : list (gkey * gstate)) : option gstate :=
   match gs with
   | [] => None
-  | (k', r) :: rest => if gkey_eqb k' k then Some r else find_group k rest
+  | (k', s) :: rest => if gkey_eqb k' k then Some s else find_group k rest
   end.
 
-Fixpoint set_group (k : gkey) (r : row) (gs : list (gkey * row)) : list (gkey * row) :=
+Fixpoint set_group (k : gkey) (s : gstate) (gs : list (gkey * gstate)) : list (gkey * gstate) :=
   match gs with
   | [] => []
-  | (k', r') :: rest => if gkey_eqb k' k then (k', r) :: rest else (k', r') :: set_group k r rest
+  | (k', s') :: rest => if gkey_eqb k' k then (k', s) :: rest else (k', s') :: set_group k s rest
   end.
 
-Definition ckey_eqb (a b : gkey * nat) : bool :=
-  gkey_eqb (fst a) (fst b) && Nat.eqb (snd a) (snd b).
-
-Fixpoint get_count (k : gkey * nat) (cs : list ((gkey * nat) * Z)) : Z :=
+Fixpoint get_count (ci : nat) (cs : list (nat * Z)) : Z :=
   match cs with
   | [] => 0%Z
-  | (k', n) :: rest => if ckey_eqb k' k then n else get_count k rest
+  | (i, n) :: rest => if Nat.eqb i ci then n else get_count ci rest
   end.
 
-Fixpoint set_count (k : gkey * nat) (n : Z) (cs : list ((gkey * nat) * Z)) :=
+Fixpoint set_count (ci : nat) (n : Z) (cs : list (nat * Z)) : list (nat * Z) :=
   match cs with
-  | [] => [(k, n)]
-  | (k', m) :: rest => if ckey_eqb k' k then (k', n) :: rest else (k', m) :: set_count k n rest
+  | [] => [(ci, n)]
+  | (i, m) :: rest => if Nat.eqb i ci then (i, n) :: rest else (i, m) :: set_count ci n rest
   end.
 
 Definition as_int (v : value) : outcome Z :=
@@ -441,49 +438,43 @@ Definition set_nth (r : row) (i : nat) (v : value) : outcome row :=
 
 (* the loop over the select list for one input row; `rep` is the representative's current
    Vals, `first` tells whether the input row IS the representative (pointer equality) *)
-Fixpoint agg_cols (sl : list derivedcol) (ci : nat) (key : gkey) (first : bool) (rw : row)
-         (rep : row) (cs : list ((gkey * nat) * Z))
-  : outcome (row * list ((gkey * nat) * Z)) :=
+Fixpoint agg_cols (sl : list derivedcol) (ci : nat) (first : bool) (rw : row)
+         (rep : row) (cs : list (nat * Z)) : outcome gstate :=
   match sl with
   | [] => Ok (rep, cs)
   | d :: rest =>
       match dc_prim d with
       | SPCount _ =>
-          if first then agg_cols rest (S ci) key first rw rep cs
+          if first then agg_cols rest (S ci) first rw rep cs
           else
             a <~ (x <~ idx_row rep ci ;; as_int x) ;;
             b <~ (x <~ idx_row rw ci ;; as_int x) ;;
             rep' <~ set_nth rep ci (VInt (a + b)) ;;
-            agg_cols rest (S ci) key first rw rep' cs
+            agg_cols rest (S ci) first rw rep' cs
       | SPAvg c =>
-          let ck := (key, ci) in
-          let n := (get_count ck cs + 1)%Z in
-          let cs' := set_count ck n cs in
+          let n := (get_count ci cs + 1)%Z in
+          let cs' := set_count ci n cs in
           a <~ (x <~ idx_row rep ci ;; as_int x) ;;
           b <~ (x <~ idx_row rw ci ;; as_int x) ;;
           rep' <~ set_nth rep ci (VInt (round_div (a * (n - 1) + b) n)) ;;
-          agg_cols rest (S ci) key first rw rep' cs'
-      | _ => agg_cols rest (S ci) key first rw rep cs
+          agg_cols rest (S ci) first rw rep' cs'
+      | _ => agg_cols rest (S ci) first rw rep cs
       end
   end.
 
-Definition agg_step (sl : list derivedcol) (gb : list colref) (st : agg_state) (rw : row)
-  : outcome agg_state :=
+Definition agg_step (sl : list derivedcol) (gb : list colref) (gs : list (gkey * gstate)) (rw : row)
+  : outcome (list (gkey * gstate)) :=
   key <~ group_key sl gb rw ;;
-  match find_group key (ag_groups st) with
-  | None =>
-      '(rep', cs') <~ agg_cols sl 0 key true rw rw (ag_counts st) ;;
-      Ok (mkAgg (ag_groups st ++ [(key, rep')]) cs')
-  | Some rep =>
-      '(rep', cs') <~ agg_cols sl 0 key false rw rep (ag_counts st) ;;
-      Ok (mkAgg (set_group key rep' (ag_groups st)) cs')
+  match find_group key gs with
+  | None => s <~ agg_cols sl 0 true rw rw [] ;; Ok (gs ++ [(key, s)])
+  | Some (rep, cs) => s <~ agg_cols sl 0 false rw rep cs ;; Ok (set_group key s gs)
   end.
 
-Fixpoint agg_loop (sl : list derivedcol) (gb : list colref) (st : agg_state) (rows : list row)
-  : outcome agg_state :=
+Fixpoint agg_loop (sl : list derivedcol) (gb : list colref) (gs : list (gkey * gstate)) (rows : list row)
+  : outcome (list (gkey * gstate)) :=
   match rows with
-  | [] => Ok st
-  | rw :: rest => st' <~ agg_step sl gb st rw ;; agg_loop sl gb st' rest
+  | [] => Ok gs
+  | rw :: rest => gs' <~ agg_step sl gb gs rw ;; agg_loop sl gb gs' rest
   end.
 
 Definition aggregate_rows (sl : list derivedcol) (gb : list colref) (rows : list row)
@@ -491,7 +482,7 @@ Definition aggregate_rows (sl : list derivedcol) (gb : list colref) (rows : list
   if negb (has_aggr sl) && match gb with [] => true | _ => false end then Ok rows
   else match gb, rows with
        | [], [] => r <~ empty_aggregate_row sl ;; Ok [r]
-       | _, _ => st <~ agg_loop sl gb (mkAgg [] []) rows ;; Ok (map snd (ag_groups st))
+       | _, _ => gs <~ agg_loop sl gb [] rows ;; Ok (map (fun g => fst (snd g)) gs)
        end.
 
 (* ---------------------------------------------------------------------------------- *)
